@@ -72,6 +72,54 @@ def int_ladder(op: str, k: int, h: int) -> bool:
     return got == want
 
 
+FLOAT_H = [5.0, 5.5, -0.5, 2.5, 4.0, 0.0, -3.0, 10.0, 1e10]
+FLOAT_T = [("5", "int", 5), ("5.0", "float", 5.0), ("5.5", "float", 5.5), ("2.5", "float", 2.5), ("4", "int", 4),
+           ("4.0", "float", 4.0), ("0", "int", 0), ("0.0", "float", 0.0), ("-0.5", "float", -0.5), ("-3", "int", -3),
+           ("1e1", "float", 10.0), ("10", "int", 10), ("abc", "text", None), ("6", "int", 6), ("-1", "int", -1)]
+
+
+def spec_float(op, tkind, tval, ttext, h):
+    """Documented answer for a float value h: numeric equality only against a float term (same kind), ordering
+    numeric against any numeric term and false against text, affix tests on the value's text."""
+    if op == "eq":
+        if tkind == "float":
+            return h == tval
+        return str(h) == ttext
+    if op == "sw":
+        return str(h).startswith(ttext)
+    if op == "ew":
+        return str(h).endswith(ttext)
+    if op == "has":
+        return ttext in str(h)
+    if tkind == "text":
+        return False
+    if op == "gt":
+        return h > tval
+    if op == "lt":
+        return h < tval
+    if op == "ge":
+        return h >= tval
+    return h <= tval
+
+
+def float_ladder(op: str, hk: int, tk: int) -> bool:
+    """Float values (native, and spelled as text) against numeric/text terms: finite pool grid through the solver."""
+    tk = realize(tk)
+    h = FLOAT_H[hk]
+    ttext, tkind, tval = FLOAT_T[tk]
+    want = spec_float(op, tkind, tval, ttext, h)
+    got = Searches.search_matches(OPS[op], ttext, h)
+    note(operator=op, term=ttext, value=h, observed=got, expected=want)
+    if got != want:
+        return False
+    # the same float written as text (what a quoted scalar holds) under the ordering operators
+    if op in ("gt", "lt", "ge", "le") and tkind != "text":
+        got2 = Searches.search_matches(OPS[op], ttext, repr(h))
+        note(value_as_text=repr(h), observed_text=got2)
+        return got2 == want
+    return True
+
+
 def is_boolish(s):
     low = s.lower()
     return low == "true" or low == "false" or s == "None"
@@ -245,6 +293,12 @@ def shards(tier, seed):
                          ["0 <= k < %d" % nt, "-99 <= h <= 99"], family="int", budget=400,
                          desc="integer value h %s term (pool of %d spellings)" % (OPTEXT[op], nt),
                          bounds={"h": "[-99,99] value-symbolic", "k": "selector over NUM_TERMS"}))
+    fhs = range(len(FLOAT_H)) if tier == "thorough" else [1, 3, 4, 5]
+    for op in ops_num if tier == "thorough" else ["eq", "gt", "lt", "ge", "le"]:
+        for hk in fhs:
+            out.append(shard(PID, "float/%s/h%d" % (op, hk), "harness.c12", "float_ladder(%r, %d, tk)" % (op, hk),
+                             [("tk", "int")], ["0 <= tk < %d" % len(FLOAT_T)], family="float", budget=300, kind="S",
+                             desc="float value %r %s every pooled term incl. ties (selector)" % (FLOAT_H[hk], OPTEXT[op])))
     text_ops = ["eq", "sw", "ew", "gt", "lt", "ge", "le"]
     terms = TEXT_TERMS if tier == "thorough" else ["ab", "B"]
     qops = text_ops if tier == "thorough" else ["eq", "sw", "gt", "le"]
